@@ -15,7 +15,7 @@ def sh(cmd, timeout=7200):
 
 ISO = os.environ.get('SEED_ISOLATED') == '1'     # see seedtest.py: copy of /verif + scratch worktree of /repo, /repo untouched
 if ISO:
-    SV, SR = '/tmp/seedverif', '/tmp/seedrepo'
+    SV, SR = '/tmp/seedverif' + os.environ.get('SEED_ISO_TAG', ''), '/tmp/seedrepo' + os.environ.get('SEED_ISO_TAG', '')
     if os.environ.get('SEED_NOSYNC') != '1':
         sh('mkdir -p %s && rsync -a --delete --exclude .git --exclude replays --exclude seeded /verif/ %s/' % (SV, SV))
         sh("sed -i 's|path = \"/repo\"|path = \"%s\"|' %s/harness/Cargo.toml" % (SR, SV))
